@@ -586,7 +586,7 @@ package classifier
 //@   requires 0.0 <= threshold && threshold <= 1.0
 //@   ensures fresh(result) && same(result.threshold, threshold) && wfClassifier(result) && len(result.docs) == 0
 //@   modifies nothing
-//@   props C10
+//@   props C10 C03 C01
 //@
 //@ func (*Classifier).addDocument
 //@   requires wfClassifier(c) && wfDoc(id) && id.dict == c.dict
